@@ -309,7 +309,7 @@ func c06Matcher(sh *explore.Shard, forest *refmodel.Forest, idx *int64) {
 }
 
 func init() {
-	Registry["C06"] = &Check{Level: "exploration", Worker: c06Worker, QuickBudget: 60 * time.Second, ThoroughBudget: 25 * time.Minute,
+	Registry["C06"] = &Check{Level: "exploration", Worker: c06Worker, QuickBudget: 200 * time.Second, ThoroughBudget: 25 * time.Minute,
 		Rule:        "all option sequences of length <=3 (quick) / <=4 (thorough) over the option alphabet (include/exclude x prefixes cut at and off component boundaries, regexps with alternation/anchors/lazy and backtracking quantifiers, @refgroups incl. nested, rule-less and augmented built-in groups; -regexp and --refgroup spellings; every --[no-]{branches,tags,remotes,notes,stash} incl. =false) x ROOT present/absent, parsed by the real pflag + RefGroupBuilder; Categorize() of every reference of a boundary-built universe compared with an independent fold and an independent full-match regexp matcher; plus the match relation itself: every regexp over the tokens a b / . * ? + | ( ) of length <=5 (<=6) and every prefix over a b / of length <=5 (<=6), as the only rule, against every name over a b / of length <=4 (<=5). non-trivial = sequences of length >= 2 and single-pattern cases",
 		Assumptions: []string{"refgroup configuration is served by a fake Configger implementing GetConfig's documented contract (C15 owns the real parser)", "regular expressions are limited to the grammar of the reference matcher (literals . * + ? | groups \\d anchors)"}}
 }
